@@ -198,7 +198,6 @@ class C02:
         'numbers with |int| <= 2^53 and finite references for < <= > >=; for IntColumn int64 integers or integral floats '
         '(|.| <= 2^53, cells then also within 2^53), +-inf/None with ==/!= only; NaN, sets, functions, types with ==/!= '
         'only; sequences of the column length; numeric-looking text, bool and other objects are outside (L1 model only)',
-        'IntColumn == object / != object is excluded from the claim and reported: the code tests `other is int`',
         'elements of sequences and members of sets are compared with plain == (a NaN member matches nothing)',
         'predicates must not depend on the Python class of a number (NumericColumn hands numpy scalars to them)',
         'set members beyond 2^53 are not generated for a FloatColumn (numpy.float64 == int rounds the int; the L1 model '
